@@ -8,7 +8,7 @@
    itself for every schedule: whatever a call returns as coming from the peer (nil error, or an
    error built from a response) is the payload of a response frame that carried that call's own
    id, whatever else is in flight and in whatever order frames arrive. *)
-From Verif Require Import Base Link Sys LinkInvR LinkInvQ.
+From Verif Require Import Base Link Sys LinkInvR LinkInvQ LinkEvents Pair PairProofs.
 
 Theorem each_call_own_result :
   forall (h : N -> N -> N) s id v,
@@ -67,3 +67,50 @@ Theorem callee_side_reordered :
             In (EvResWritten 2 zero None) (evs s) /\ inv_ids (evs s) = [0; 2; 1].
 Proof. exact callee_side_example. Qed.
 Print Assumptions callee_side_reordered.
+
+(* ---- the two halves composed: two endpoints (each an instance of Link.v, with its own calls,
+   schedule, faults and cancellations) joined by a network that may delay, reorder, duplicate and
+   drop frames but not forge them (Pair.v).  For EVERY run of the closed system: *)
+
+(* every request frame a call writes carries that call's own argument *)
+Theorem request_carries_own_argument :
+  forall calls cs s i arg cl,
+    lrun fixed calls linit cs = Some s -> In (EvReqWritten i arg cl) (evs s) ->
+    arg = c_arg (nth i calls dflt_call) /\ cl = c_closure (nth i calls dflt_call).
+Proof. exact request_carries_own_argument_lemma. Qed.
+Print Assumptions request_carries_own_argument.
+
+(* whatever a call of A returns as coming from the peer is the result of an invocation that B made
+   of the function this call named, with this call's own argument, for a frame this call wrote *)
+Theorem result_is_own_handlers_end_to_end :
+  forall (fn : nat -> fnkind) callsA callsB l p i v r oe,
+    prun fn callsA callsB pinit l = Some p ->
+    In (EvReturn i v r) (evs (pa p)) -> genuine r = Some oe ->
+    exists n x,
+      nth_error (dreq p) n = Some i /\
+      In (EvInvoked n (fn i) (c_arg (nth i callsA dflt_call))) (evs (pb p)) /\
+      handler_result (fn i) (c_arg (nth i callsA dflt_call)) = Some (x, oe) /\
+      v = (if nres1 callsA i then zero else x).
+Proof. exact pair_result_is_own_handlers_lemma. Qed.
+Print Assumptions result_is_own_handlers_end_to_end.
+
+(* B invokes an exposed function only for request frames A wrote, with the function and argument of
+   the call that wrote the frame, and at most once per accepted frame; at most one response each *)
+Theorem invocations_are_requested_end_to_end :
+  forall (fn : nat -> fnkind) callsA callsB l p,
+    prun fn callsA callsB pinit l = Some p ->
+    (forall n f arg, In (EvInvoked n f arg) (evs (pb p)) ->
+       exists i, nth_error (dreq p) n = Some i /\ f = fn i /\ arg = c_arg (nth i callsA dflt_call) /\
+                 In (EvReqWritten i arg (c_closure (nth i callsA dflt_call))) (evs (pa p))) /\
+    NoDup (inv_ids (evs (pb p))) /\ NoDup (res_ids (evs (pb p))).
+Proof. exact pair_invocations_are_requested_lemma. Qed.
+Print Assumptions invocations_are_requested_end_to_end.
+
+(* non-vacuity: two calls in flight, requests delivered in the opposite order, one response
+   delivered twice; each call returns its own handler's result *)
+Theorem end_to_end_reordered_duplicated :
+  exists p, prun px_fn px_calls [] pinit px_sched = Some p /\
+            In (EvReturn 0 10%N None) (evs (pa p)) /\ In (EvReturn 1 11%N (Some (EApp 5%N))) (evs (pa p)) /\
+            dreq p = [1; 0].
+Proof. exact pair_example. Qed.
+Print Assumptions end_to_end_reordered_duplicated.
